@@ -226,7 +226,7 @@ structure PartFacts (ps : List DescrPart) : Prop where
   delC : ∀ q ∈ ps, q.mod = .delete → ∀ c ∈ p'.tabs.cstates, c.dh ≠ q.descr.handle
   stable : ∀ k c c', p.pc k = some c → p'.pc k = some c' → c'.dh = c.dh
   ctxLists : ∀ q ∈ ps, q.mod = .update → q.descr.kind = Kind.context →
-    ∀ c, (c ∈ p.tabs.cstates ∨ c ∈ p'.tabs.cstates) → c.dh = q.descr.handle → c.h ∈ keepOf q
+    ∀ c ∈ p'.tabs.cstates, c.dh = q.descr.handle → c.h ∈ keepOf q
 
 /-- invariant while the parts are processed; `done` = the parts processed so far -/
 structure Mid (done : List DescrPart) (t : Tables) : Prop where
@@ -239,6 +239,8 @@ structure Mid (done : List DescrPart) (t : Tables) : Prop where
   sDel : ∀ b ∈ done, b.mod = .delete → lookupBy (·.dh) t.states b.descr.handle = p'.ps b.descr.handle
   cDel : ∀ b ∈ done, b.mod = .delete → ∀ k c, p.pc k = some c → c.dh = b.descr.handle →
     lookupBy (·.h) t.cstates k = p'.pc k
+  cUpd : ∀ b ∈ done, b.mod = .update → b.descr.kind = Kind.context → ∀ k c, p.pc k = some c →
+    c.dh = b.descr.handle → k ∉ keepOf b → lookupBy (·.h) t.cstates k = p'.pc k
 
 variable {p p'}
 
@@ -250,6 +252,43 @@ theorem between_mem {α : Type} {key : α → Nat} {l pl pl' : List α} (hn : (l
   rcases hb (key x) with h1 | h1
   · rw [h] at h1; exact Or.inl (lookupBy_some_mem key h1.symm).1
   · rw [h] at h1; exact Or.inr (lookupBy_some_mem key h1.symm).1
+
+/-- filtering a table with unique keys filters the lookups -/
+theorem lookupBy_filter_nodup {α : Type} (key : α → Nat) {l : List α} (f : α → Bool) (hn : (l.map key).Nodup) (k : Nat) :
+    lookupBy key (l.filter f) k = (lookupBy key l k).filter f := by
+  induction l with
+  | nil => simp
+  | cons y ys ih =>
+    simp only [List.map_cons, List.nodup_cons] at hn
+    rw [List.filter_cons, lookupBy_cons]
+    by_cases hf : f y = true
+    · simp only [hf, if_true]
+      rw [lookupBy_cons, ih hn.2]
+      by_cases hk : key y = k
+      · simp [hk, Option.filter, hf]
+      · simp [hk]
+    · have hf' : f y = false := by simpa using hf
+      simp only [hf', Bool.false_eq_true, if_false]
+      rw [ih hn.2]
+      by_cases hk : key y = k
+      · subst hk
+        have : lookupBy key ys (key y) = none := by
+          rw [lookupBy_none_iff]; intro a ha he; exact hn.1 (he ▸ List.mem_map_of_mem ha)
+        simp [this, Option.filter, hf']
+      · simp [hk]
+
+/-- a context state that an UPDATE part of its (context) descriptor does not list is gone in `p'` -/
+theorem unlisted_cstate_gone {ps : List DescrPart} {q : DescrPart} (F : PartFacts p p' ps) (hq : q ∈ ps)
+    (hm : q.mod = .update) (hkind : q.descr.kind = Kind.context) {k : Nat} {c : CState} (hk : p.pc k = some c)
+    (hdh : c.dh = q.descr.handle) (hnot : k ∉ keepOf q) : p'.pc k = none := by
+  cases h' : p'.pc k with
+  | none => rfl
+  | some c' =>
+    have h1 := F.stable k c c' hk h'
+    have h2 := lookupBy_some_mem _ h'
+    have := F.ctxLists q hq hm hkind c' h2.1 (h1.trans hdh)
+    rw [h2.2] at this
+    exact absurd this hnot
 
 theorem mid_create {ps done : List DescrPart} {t : Tables} {q : DescrPart} (F : PartFacts p p' ps) (hq : q ∈ ps)
     (hm : q.mod = .create) (hnew : ∀ b ∈ done, b.descr.handle ≠ q.descr.handle) (M : Mid p p' done t) :
@@ -264,7 +303,7 @@ theorem mid_create {ps done : List DescrPart} {t : Tables} {q : DescrPart} (F : 
                                states := (gatedPutAll (·.dh) (·.sv) true t.states q.states).1
                                cstates := (gatedPutAll (·.h) (·.sv) true t.cstates q.cstates).1 } := by
     unfold applyPart; rw [hm]
-  refine ⟨⟨applyPart_wf q M.wf, ?_, ?_, ?_, ?_, ?_, ?_, ?_⟩, ?_, ?_⟩
+  refine ⟨⟨applyPart_wf q M.wf, ?_, ?_, ?_, ?_, ?_, ?_, ?_, ?_⟩, ?_, ?_⟩
   · intro k
     rw [hap]; simp only; rw [createDescr_lookup]
     by_cases hk : k = q.descr.handle
@@ -293,6 +332,11 @@ theorem mid_create {ps done : List DescrPart} {t : Tables} {q : DescrPart} (F : 
     rcases List.mem_append.mp hb with hb | hb
     · exact gatedPutAll_at _ _ _ _ hcs (M.cDel b hb hbm k c hk hdh)
     · simp only [List.mem_singleton] at hb; subst hb; rw [hm] at hbm; cases hbm
+  · intro b hb hbm hbk k c hk hdh hnot
+    rw [hap]
+    rcases List.mem_append.mp hb with hb | hb
+    · exact gatedPutAll_at _ _ _ _ hcs (M.cUpd b hb hbm hbk k c hk hdh hnot)
+    · simp only [List.mem_singleton] at hb; subst hb; rw [hm] at hbm; cases hbm
   · intro k hk; rw [hap]; exact gatedPutAll_at _ _ _ _ hs hk
   · intro k hk; rw [hap]; exact gatedPutAll_at _ _ _ _ hcs hk
 
@@ -306,27 +350,98 @@ theorem mid_update {ps done : List DescrPart} {t : Tables} {q : DescrPart} (F : 
   have hnd : q.mod ≠ .delete := by rw [hm]; decide
   have hs := F.sValid q hq hnd
   have hcs := F.cValid q hq hnd
-  -- the context-state filter of an UPDATE part removes nothing
-  have hfilter : (if q.descr.kind == Kind.context
+  -- the context-state filter of an UPDATE part of a context descriptor removes exactly the states it does not list
+  let cs' := if q.descr.kind == Kind.context
       then t.cstates.filter (fun s => !(s.dh == q.descr.handle && !(keepOf q).contains s.h))
-      else t.cstates) = t.cstates := by
-    split
-    · rename_i hk
-      have hk' : q.descr.kind = Kind.context := by simpa using hk
-      apply List.filter_eq_self.mpr
-      intro c hc
-      by_cases hdh : c.dh = q.descr.handle
-      · have hmem := between_mem M.wf.c M.c hc
-        have := F.ctxLists q hq hm hk' c hmem hdh
-        simp [hdh, this]
-      · simp [hdh]
-    · rfl
+      else t.cstates
+  have hcs'wf : (cs'.map (·.h)).Nodup := by
+    by_cases hk' : (q.descr.kind == Kind.context) = true
+    · simp only [cs', hk', if_true]; exact nodup_filter_keys _ _ M.wf.c
+    · simp only [cs', hk', if_false]; exact M.wf.c
+  have hlk : ∀ k, lookupBy (·.h) cs' k = lookupBy (·.h) t.cstates k ∨
+      (lookupBy (·.h) cs' k = none ∧ q.descr.kind = Kind.context ∧
+        ∃ c, lookupBy (·.h) t.cstates k = some c ∧ c.dh = q.descr.handle ∧ k ∉ keepOf q) := by
+    intro k
+    by_cases hk' : q.descr.kind = Kind.context
+    · have hcs' : cs' = t.cstates.filter (fun s => !(s.dh == q.descr.handle && !(keepOf q).contains s.h)) := by
+        simp only [cs', hk', beq_self_eq_true, if_true]
+      rw [hcs', lookupBy_filter_nodup _ _ M.wf.c]
+      cases hl : lookupBy (·.h) t.cstates k with
+      | none => left; rfl
+      | some c =>
+        have hck : c.h = k := (lookupBy_some_mem _ hl).2
+        by_cases hrem : c.dh = q.descr.handle ∧ k ∉ keepOf q
+        · right
+          refine ⟨?_, hk', c, rfl, hrem.1, hrem.2⟩
+          have h3 : (keepOf q).contains c.h = false := by
+            rw [hck]
+            cases hc : (keepOf q).contains k with
+            | false => rfl
+            | true => exact absurd (List.contains_iff_mem.mp hc) hrem.2
+          have e1 : (c.dh == q.descr.handle) = true := by rw [hrem.1]; exact beq_self_eq_true _
+          have : (!(c.dh == q.descr.handle && !(keepOf q).contains c.h)) = false := by rw [e1, h3]; rfl
+          rw [Option.filter_some, if_neg (by rw [this]; decide)]
+        · left
+          have : (!(c.dh == q.descr.handle && !(keepOf q).contains c.h)) = true := by
+            rw [hck]
+            by_cases h1 : c.dh = q.descr.handle
+            · have h2 : k ∈ keepOf q := Decidable.byContradiction (fun h => hrem ⟨h1, h⟩)
+              have h3 : (keepOf q).contains k = true := List.contains_iff_mem.mpr h2
+              rw [h3]; cases (c.dh == q.descr.handle) <;> rfl
+            · have e1 : (c.dh == q.descr.handle) = false := by
+                cases he : c.dh == q.descr.handle with
+                | false => rfl
+                | true => exact absurd (by simpa using he) h1
+              rw [e1]; rfl
+          rw [Option.filter_some, if_pos this]
+    · left
+      have : (q.descr.kind == Kind.context) = false := by
+        cases he : q.descr.kind == Kind.context with
+        | false => rfl
+        | true => exact absurd (by simpa using he) hk'
+      simp only [cs', this, Bool.false_eq_true, if_false]
+  -- an entry that is removed was old content without new content
+  have hgone : ∀ k c, lookupBy (·.h) t.cstates k = some c → q.descr.kind = Kind.context → c.dh = q.descr.handle →
+      k ∉ keepOf q → p.pc k = some c ∧ p'.pc k = none := by
+    intro k c hl hkind hdh hnot
+    have hck : c.h = k := (lookupBy_some_mem _ hl).2
+    rcases M.c k with h | h
+    · rw [hl] at h
+      exact ⟨h.symm, unlisted_cstate_gone F hq hm hkind h.symm hdh hnot⟩
+    · rw [hl] at h
+      have hc' : c ∈ p'.tabs.cstates := (lookupBy_some_mem _ h.symm).1
+      have := F.ctxLists q hq hm hkind c hc' hdh
+      rw [hck] at this
+      exact absurd this hnot
+  have hbetween' : Between (·.h) p.pc p'.pc cs' := by
+    intro k
+    rcases hlk k with h | ⟨h, hkind, c, hl, hdh, hnot⟩
+    · rw [h]; exact M.c k
+    · right; rw [h]; exact (hgone k c hl hkind hdh hnot).2.symm
+  have hat' : ∀ k, lookupBy (·.h) t.cstates k = p'.pc k → lookupBy (·.h) cs' k = p'.pc k := by
+    intro k hk
+    rcases hlk k with h | ⟨h, hkind, c, hl, hdh, hnot⟩
+    · rw [h]; exact hk
+    · rw [h]; exact (hgone k c hl hkind hdh hnot).2.symm
+  have hrm : ∀ k c, lookupBy (·.h) t.cstates k = some c → q.descr.kind = Kind.context → c.dh = q.descr.handle →
+      k ∉ keepOf q → lookupBy (·.h) cs' k = none := by
+    intro k c hl hkind hdh hnot
+    have hck : c.h = k := (lookupBy_some_mem _ hl).2
+    have hcs' : cs' = t.cstates.filter (fun s => !(s.dh == q.descr.handle && !(keepOf q).contains s.h)) := by
+      simp only [cs', hkind, beq_self_eq_true, if_true]
+    rw [hcs', lookupBy_filter_nodup _ _ M.wf.c, hl]
+    have h3 : (keepOf q).contains c.h = false := by
+      rw [hck]
+      cases hc : (keepOf q).contains k with
+      | false => rfl
+      | true => exact absurd (List.contains_iff_mem.mp hc) hnot
+    have e1 : (c.dh == q.descr.handle) = true := by rw [hdh]; exact beq_self_eq_true _
+    have : (!(c.dh == q.descr.handle && !(keepOf q).contains c.h)) = false := by rw [e1, h3]; rfl
+    rw [Option.filter_some, if_neg (by rw [this]; decide)]
   have hap : applyPart t q = { descrs := updateDescr t.descrs q.descr
                                states := (gatedPutAll (·.dh) (·.sv) false t.states q.states).1
-                               cstates := (gatedPutAll (·.h) (·.sv) false t.cstates q.cstates).1 } := by
-    unfold applyPart; rw [hm]; simp only
-    unfold keepOf at hfilter
-    rw [hfilter]
+                               cstates := (gatedPutAll (·.h) (·.sv) false cs' q.cstates).1 } := by
+    unfold applyPart; rw [hm]; simp only [keepOf, cs']
   -- the updated descriptor is the new content
   have hd : lookupBy (·.handle) (updateDescr t.descrs q.descr) q.descr.handle = some q.descr := by
     rw [updateDescr_lookup]; simp only [if_true]
@@ -335,14 +450,14 @@ theorem mid_update {ps done : List DescrPart} {t : Tables} {q : DescrPart} (F : 
       rw [ho]; simp only [Option.map_some, hpar, hmds]
     · rw [h]; show (p'.pd q.descr.handle).map _ = _
       rw [hnewd]; simp
-  refine ⟨⟨applyPart_wf q M.wf, ?_, ?_, ?_, ?_, ?_, ?_, ?_⟩, ?_, ?_⟩
+  refine ⟨⟨applyPart_wf q M.wf, ?_, ?_, ?_, ?_, ?_, ?_, ?_, ?_⟩, ?_, ?_⟩
   · intro k
     rw [hap]; simp only
     by_cases hk : k = q.descr.handle
     · subst hk; right; rw [hd]; exact hnewd.symm
     · rw [updateDescr_lookup]; simp only [hk, if_false]; exact M.d k
   · rw [hap]; exact gatedPutAll_between _ _ _ _ hs M.s
-  · rw [hap]; exact gatedPutAll_between _ _ _ _ hcs M.c
+  · rw [hap]; exact gatedPutAll_between _ _ _ _ hcs hbetween'
   · intro b hb
     rw [hap]; simp only
     rcases List.mem_append.mp hb with hb | hb
@@ -362,10 +477,22 @@ theorem mid_update {ps done : List DescrPart} {t : Tables} {q : DescrPart} (F : 
   · intro b hb hbm k c hk hdh
     rw [hap]
     rcases List.mem_append.mp hb with hb | hb
-    · exact gatedPutAll_at _ _ _ _ hcs (M.cDel b hb hbm k c hk hdh)
+    · exact gatedPutAll_at _ _ _ _ hcs (hat' k (M.cDel b hb hbm k c hk hdh))
     · simp only [List.mem_singleton] at hb; subst hb; rw [hm] at hbm; cases hbm
+  · intro b hb hbm hbk k c hk hdh hnot
+    rw [hap]
+    rcases List.mem_append.mp hb with hb | hb
+    · exact gatedPutAll_at _ _ _ _ hcs (hat' k (M.cUpd b hb hbm hbk k c hk hdh hnot))
+    · have hbq : b = q := by simpa using hb
+      rw [hbq] at hbk hdh hnot
+      apply gatedPutAll_at _ _ _ _ hcs
+      have hp' := unlisted_cstate_gone F hq hm hbk hk hdh hnot
+      rw [hp']
+      rcases M.c k with h2 | h2
+      · rw [hk] at h2; exact hrm k c h2 hbk hdh hnot
+      · have := hat' k h2; rw [hp'] at this; exact this
   · intro k hk; rw [hap]; exact gatedPutAll_at _ _ _ _ hs hk
-  · intro k hk; rw [hap]; exact gatedPutAll_at _ _ _ _ hcs hk
+  · intro k hk; rw [hap]; exact gatedPutAll_at _ _ _ _ hcs (hat' k hk)
 
 /-- flatness of one DELETE part, as needed at the moment it is processed -/
 def FlatAt (p : Core) (ps done : List DescrPart) (q : DescrPart) : Prop :=
@@ -376,30 +503,6 @@ def FlatAt (p : Core) (ps done : List DescrPart) (q : DescrPart) : Prop :=
 /-- every descriptor of `p'` is a descriptor of `p` or the descriptor of a CREATE / UPDATE part -/
 def DescrComplete (p p' : Core) (ps : List DescrPart) : Prop :=
   ∀ d ∈ p'.tabs.descrs, p.pd d.handle = some d ∨ ∃ b ∈ ps, b.mod ≠ .delete ∧ b.descr.handle = d.handle
-
-/-- filtering a table with unique keys filters the lookups -/
-theorem lookupBy_filter_nodup {α : Type} (key : α → Nat) {l : List α} (f : α → Bool) (hn : (l.map key).Nodup) (k : Nat) :
-    lookupBy key (l.filter f) k = (lookupBy key l k).filter f := by
-  induction l with
-  | nil => simp
-  | cons y ys ih =>
-    simp only [List.map_cons, List.nodup_cons] at hn
-    rw [List.filter_cons, lookupBy_cons]
-    by_cases hf : f y = true
-    · simp only [hf, if_true]
-      rw [lookupBy_cons, ih hn.2]
-      by_cases hk : key y = k
-      · simp [hk, Option.filter, hf]
-      · simp [hk]
-    · have hf' : f y = false := by simpa using hf
-      simp only [hf', Bool.false_eq_true, if_false]
-      rw [ih hn.2]
-      by_cases hk : key y = k
-      · subst hk
-        have : lookupBy key ys (key y) = none := by
-          rw [lookupBy_none_iff]; intro a ha he; exact hn.1 (he ▸ List.mem_map_of_mem ha)
-        simp [this, Option.filter, hf']
-      · simp [hk]
 
 /-- a context state of a deleted descriptor is gone in `p'` -/
 theorem deleted_cstate_gone {ps : List DescrPart} {b : DescrPart} (F : PartFacts p p' ps) (hb : b ∈ ps)
@@ -459,7 +562,7 @@ theorem mid_delete {ps done : List DescrPart} {t : Tables} {q : DescrPart} (F : 
   have hcs : ∀ k, lookupBy (·.h) (removeBy (·.dh) t.cstates [q.descr.handle].contains) k =
       (lookupBy (·.h) t.cstates k).filter (fun c => !([q.descr.handle].contains c.dh)) := by
     intro k; unfold removeBy; exact lookupBy_filter_nodup _ _ M.wf.c k
-  refine ⟨⟨applyPart_wf q M.wf, ?_, ?_, ?_, ?_, ?_, ?_, ?_⟩, ?_, ?_⟩
+  refine ⟨⟨applyPart_wf q M.wf, ?_, ?_, ?_, ?_, ?_, ?_, ?_, ?_⟩, ?_, ?_⟩
   · intro k
     rw [hap]; simp only; rw [removeBy_lookup]
     by_cases hk : k = q.descr.handle
@@ -528,6 +631,13 @@ theorem mid_delete {ps done : List DescrPart} {t : Tables} {q : DescrPart} (F : 
         rw [hk]; simp [hdh]
       · rw [h]; show (p'.pc k).filter _ = none
         rw [h2]; rfl
+  · intro b hb hbm hbk k c hk hdh hnot
+    rw [hap]; simp only; rw [hcs]
+    rcases List.mem_append.mp hb with hb | hb
+    · have h1 := M.cUpd b hb hbm hbk k c hk hdh hnot
+      have h2 := unlisted_cstate_gone F (hdone b hb) hbm hbk hk hdh hnot
+      rw [h1, h2]; rfl
+    · simp only [List.mem_singleton] at hb; subst hb; rw [hm] at hbm; cases hbm
   · intro k hk
     rw [hap]; simp only; rw [removeBy_lookup]
     by_cases hkq : k = q.descr.handle
@@ -637,7 +747,8 @@ structure TxFacts (p p' : Core) (rs : List Report) : Prop where
     ∃ r ∈ rs, r.kind ≠ .description ∧ r.kind ≠ .context ∧ s ∈ r.states
   sRemoved : ∀ s ∈ p.tabs.states, p'.ps s.dh ≠ none ∨ ∃ b ∈ descrParts rs, b.mod = .delete ∧ b.descr.handle = s.dh
   cComplete : ∀ s ∈ p'.tabs.cstates, p.pc s.h = some s ∨ ∃ r ∈ rs, r.kind = .context ∧ s ∈ r.cstates
-  cRemoved : ∀ s ∈ p.tabs.cstates, p'.pc s.h ≠ none ∨ ∃ b ∈ descrParts rs, b.mod = .delete ∧ b.descr.handle = s.dh
+  cRemoved : ∀ s ∈ p.tabs.cstates, p'.pc s.h ≠ none ∨ (∃ b ∈ descrParts rs, b.mod = .delete ∧ b.descr.handle = s.dh) ∨
+    ∃ b ∈ descrParts rs, b.mod = .update ∧ b.descr.kind = Kind.context ∧ b.descr.handle = s.dh ∧ s.h ∉ keepOf b
 
 /-- one accepted report -/
 theorem mid_report {rs : List Report} (T : TxFacts p p' rs) {r : Report} (hr : r ∈ rs) {done : List DescrPart} {c : Core}
@@ -672,7 +783,8 @@ theorem mid_report {rs : List Report} (T : TxFacts p p' rs) {r : Report} (hr : r
         unfold applyReport; rw [hacc]; simp [hkc]
       rw [htab]
       refine ⟨⟨⟨M.wf.d, M.wf.s, gatedPutAll_nodup _ _ _ M.wf.c⟩, M.d, M.s, gatedPutAll_between _ _ _ _ hx M.c, M.dDone,
-        M.dKeep, M.sDel, fun b hb hbm k cs hk hdh => gatedPutAll_at _ _ _ _ hx (M.cDel b hb hbm k cs hk hdh)⟩,
+        M.dKeep, M.sDel, fun b hb hbm k cs hk hdh => gatedPutAll_at _ _ _ _ hx (M.cDel b hb hbm k cs hk hdh),
+        fun b hb hbm hbk k cs hk hdh hnot => gatedPutAll_at _ _ _ _ hx (M.cUpd b hb hbm hbk k cs hk hdh hnot)⟩,
         fun _ h => h, fun k h => gatedPutAll_at _ _ _ _ hx h, fun _ h => absurd hkc h,
         fun _ => gatedPutAll_at_new _ _ _ _ hx M.c, hvg'⟩
     · have hx := T.sValid r hr hkd hkc
@@ -682,7 +794,7 @@ theorem mid_report {rs : List Report} (T : TxFacts p p' rs) {r : Report} (hr : r
         all_goals (cases hk : r.kind <;> simp_all)
       rw [htab]
       refine ⟨⟨⟨M.wf.d, gatedPutAll_nodup _ _ _ M.wf.s, M.wf.c⟩, M.d, gatedPutAll_between _ _ _ _ hx M.s, M.c, M.dDone,
-        M.dKeep, fun b hb hbm => gatedPutAll_at _ _ _ _ hx (M.sDel b hb hbm), M.cDel⟩,
+        M.dKeep, fun b hb hbm => gatedPutAll_at _ _ _ _ hx (M.sDel b hb hbm), M.cDel, M.cUpd⟩,
         fun k h => gatedPutAll_at _ _ _ _ hx h, fun _ h => h,
         fun _ _ => gatedPutAll_at_new _ _ _ _ hx M.s, fun h => absurd h hkc, hvg'⟩
 
@@ -746,7 +858,7 @@ theorem mirror_of_facts {rs : List Report} (T : TxFacts p p' rs) {c : Core} (hw 
     Mirror (applyAll c rs).1 p' := by
   have M0 : Mid p p' [] c.tabs :=
     ⟨hw, fun k => Or.inl (hM.d k), fun k => Or.inl (hM.s k), fun k => Or.inl (hM.c k), (fun b hb => nomatch hb),
-     fun k _ => hM.d k, (fun b hb => nomatch hb), (fun b hb => nomatch hb)⟩
+     fun k _ => hM.d k, (fun b hb => nomatch hb), (fun b hb => nomatch hb), (fun b hb => nomatch hb)⟩
   obtain ⟨M, _, _, a, b, v⟩ := mid_reports T rs [] c (fun _ h => h) (fun b hb => nomatch hb)
     (by simpa using T.distinct) T.flat (by rw [hM.vg]; exact T.ver) M0
   simp only [List.nil_append] at M
@@ -822,10 +934,13 @@ theorem mirror_of_facts {rs : List Report} (T : TxFacts p p' rs) {c : Core} (hw 
         | none => rfl
         | some s =>
           have hs : s ∈ p.tabs.cstates := (lookupBy_some_mem _ hp).1
-          rcases T.cRemoved s hs with h1 | ⟨q, hq, hqm, hqh⟩
-          · have hk : s.h = k := (lookupBy_some_mem _ hp).2
-            rw [hk] at h1; exact absurd hp' h1
+          have hk : s.h = k := (lookupBy_some_mem _ hp).2
+          rcases T.cRemoved s hs with h1 | ⟨q, hq, hqm, hqh⟩ | ⟨q, hq, hqm, hqk, hqh, hnot⟩
+          · rw [hk] at h1; exact absurd hp' h1
           · have := M.cDel q hq hqm k s hp hqh.symm
+            rw [← hp, ← h, this]; exact hp'
+          · rw [hk] at hnot
+            have := M.cUpd q hq hqm hqk k s hp hqh.symm hnot
             rw [← hp, ← h, this]; exact hp'
     · exact h
 
@@ -1009,9 +1124,19 @@ theorem txFacts_of_describe (h : ReportsDescribe p p' rs) : TxFacts p p' rs := b
     · exact Or.inl h1
     · exact Or.inr (of_mem_contextReportStates h1)
   · intro s hs
-    rcases hcr' s hs with h1 | h1
+    rcases hcr' s hs with (h1 | h1) | ⟨q, hq, ⟨⟨hqm, hqk⟩, hqh⟩, hany⟩
     · exact Or.inl h1
-    · exact Or.inr (mem_deletedHandles.mp h1)
+    · exact Or.inr (Or.inl (mem_deletedHandles.mp h1))
+    · refine Or.inr (Or.inr ⟨q, hq, hqm, hqk, hqh, ?_⟩)
+      intro hmem
+      unfold keepOf at hmem
+      rw [List.mem_map] at hmem
+      obtain ⟨x, hx, hxh⟩ := hmem
+      rw [List.mem_filter] at hx
+      have : (q.cstates.any fun x_1 => x_1.h == s.h && x_1.dh == q.descr.handle) = true := by
+        rw [List.any_eq_true]
+        exact ⟨x, hx.1, by simp [hxh]; simpa using hx.2⟩
+      rw [this] at hany; cases hany
 
 end Bridge
 section Notifs
